@@ -138,8 +138,8 @@ DoReset(r) ==
      /\ rep' = [rep EXCEPT !.runs = @ + 1]
 
 \* the observation handed to the judges: the record plus whether the specification's locals of the actor can be trusted
-Obs(r, sync) == [t |-> r.t, run |-> r.run, i |-> r.i, actor |-> r.actor, site |-> r.site, arg |-> r.arg, next |-> r.next, narg |-> r.narg,
-                 op |-> r.op, ret |-> r.ret, ev |-> r.ev, truth |-> r.truth, sync |-> sync]
+Obs(r, sync, agree) == [t |-> r.t, run |-> r.run, i |-> r.i, actor |-> r.actor, site |-> r.site, arg |-> r.arg, next |-> r.next, narg |-> r.narg,
+                 op |-> r.op, ret |-> r.ret, ev |-> r.ev, truth |-> r.truth, sync |-> sync, agree |-> agree]
 
 \* pred: the prediction for the current step (TLC does not memoise LET definitions that depend on the state, so every value
 \* that is used more than once is first bound to a primed variable and then read back)
@@ -174,7 +174,7 @@ DoStep(r) ==
               ELSE IF ~isEnv /\ a = "sweeper" /\ r.next = "K_DelKw"
               THEN [A0 EXCEPT !.lc[a].id = r.narg]
               ELSE A0
-     /\ gh' = GhostNext(gh, st, a, r.site, pred'.inp, st', Obs(r, isEnv \/ (known /\ pred'.st.pc[a] = r.next)))
+     /\ gh' = GhostNext(gh, st, a, r.site, pred'.inp, st', Obs(r, isEnv \/ known, isEnv \/ (known /\ pred'.st.pc[a] = r.next)))
      /\ rep' = LET A == st'
                    \* values near i64::MAX / Duration::MAX are clamped in the trace (two-zone encoding): arithmetic on them is outside the model's range
                    oor == \/ A.used >= Huge \/ st.used >= Huge \/ A.used <= -Huge
@@ -184,7 +184,7 @@ DoStep(r) ==
                           \/ r.op.w >= Huge \/ r.op.ttl >= 1000000 \/ r.op.ttl_ns # 0   \* (the model's clock has whole seconds)
                           \/ (a \in DOMAIN st.lc /\ (st.lc[a].w >= Huge \/ st.lc[a].cmd.ttl >= 1000000 \/ st.lc[a].cmd.w >= Huge \/ st.lc[a].exp >= 1000000))
                    div == IF (isEnv \/ known) /\ ~oor THEN DivFields(pred'.st, A, r, pred'.ret) ELSE {}
-                   newV == Judge(st, a, r.site, pred'.inp, A, Obs(r, isEnv \/ (known /\ pred'.st.pc[a] = r.next)), gh, gh')
+                   newV == Judge(st, a, r.site, pred'.inp, A, Obs(r, isEnv \/ known, isEnv \/ (known /\ pred'.st.pc[a] = r.next)), gh, gh')
                IN [rep EXCEPT
                      !.steps = @ + 1,
                      !.ndiv = @ + (IF div = {} THEN 0 ELSE 1),
